@@ -18,7 +18,7 @@ PLAN_ENTRY = {'stages': [
     ]}
 
 CLAIM = {
-    'text': 'Model checking and proof: the Levenberg-Marquardt problem is specified as a protocol machine (set_params / residuals / jacobian / finish in any order, cache of moved points owned by the parameters in force); TLC shows that with the refresh in set_params everything ever reported was computed from the current parameters, and (negative configuration, must fail) that without the refresh it is not; the invariant is also proved with TLAPS for unbounded parameter sets and histories (AlignLMProof.tla). Binding: cfg(engeom_verif) hooks emit every set_params / residuals / jacobian call of the real solvers; TLC validates each recorded run against the protocol (the parameters seen by residuals/jacobian are those of the last set_params) and checks every recorded residual vector against the distances re-derived from those parameters. On the result: for L-shaped and notched lattice polygons (2D) and a lattice box (3D), lattice sample points, exact displacements (small Pythagorean rotations about every axis, shifts in eighths, plus out-of-basin ones), two starting guesses and both DistMode values, the i-th reported residual equals the mode-specific distance of the i-th point moved by the returned transform, the sum of squares is not larger than at the start, avg_residual is the mean, and inside the basin transform o displacement is the identity on every sample point.',
+    'text': 'Model checking and proof: the Levenberg-Marquardt problem is specified as a protocol machine (set_params / residuals / jacobian / finish in any order, cache of moved points owned by the parameters in force); TLC shows that with the refresh in set_params everything ever reported was computed from the current parameters, and (negative configuration, must fail) that without the refresh it is not; the invariant is also proved with TLAPS for unbounded parameter sets and histories (AlignLMProof.tla). Binding: cfg(engeom_verif) hooks emit every set_params / residuals / jacobian call of the real solvers; TLC validates each recorded run against the protocol (the parameters seen by residuals/jacobian are those of the last set_params) and checks every recorded residual vector against the distances re-derived from those parameters. On the result: for L-shaped and notched lattice polygons (2D) and a lattice box (3D), lattice sample points, exact displacements (small Pythagorean rotations about every axis, shifts in eighths, plus out-of-basin ones), two starting guesses and both DistMode values, the i-th reported residual equals the mode-specific distance of the i-th point moved by the returned transform, the sum of squares is not larger than at the start, avg_residual is the mean, and inside the basin transform o displacement is the identity on every sample point. Seeded 3D cases also use the box a thousand times smaller and larger (power-of-two scale of the whole problem, point and plane mode); for every seeded 3D case the basin is: no sample displaced by more than 1/2 unit.',
     'design_ref': 'DESIGN.md section 6 C07',
     'note': 'Trusted: TLC, harness derived distances via engeom closest-point queries, nalgebra. Hooks: commit 1096747 (add-only, cfg engeom_verif).',
     'technique': 'TLA+ protocol spec model-checked by TLC (incl. negative model) + trace validation of hook-recorded solver runs against it',
@@ -27,6 +27,18 @@ CLAIM = {
 ROTS2 = [(1, 0, 1), (1, 0, 1), (63, 16, 65), (63, -16, 65), (35, 12, 37), (399, -40, 401), (399, 40, 401), (899, -60, 901), (99, 20, 101), (40, -9, 41)]
 ELL = [[0, 0, 0], [6, 0, 0], [6, 2, 0], [2, 2, 0], [2, 5, 0], [0, 5, 0]]
 ELLS = [[2, 0, 0], [6, 0, 0], [10, 0, 0], [12, 2, 0], [10, 4, 0], [6, 4, 0], [4, 6, 0], [4, 8, 0], [2, 10, 0], [0, 8, 0], [0, 4, 0], [0, 1, 0], [9, 0, 0], [12, 3, 0]]
+
+
+def _basin3(D, samples):
+    """the stated basin for seeded 3D cases: no sample (half-lattice coordinates) is displaced by more than 1/2 unit - a quarter of the
+    smallest feature of the box"""
+    M, H, t, td = D['M'], D['H'], D['t'], D['tden']
+    for sp in samples:
+        p = [c / 2.0 for c in sp]
+        q = [sum(M[i][k] * p[k] for k in range(3)) / H + t[i] / td for i in range(3)]
+        if sum((q[i] - p[i]) ** 2 for i in range(3)) > 0.25:
+            return False
+    return True
 
 
 def gen_c07_random(rnd, tier):
@@ -76,5 +88,13 @@ def gen_c07_random(rnd, tier):
         M = {1: [[c, -s, 0], [s, c, 0], [0, 0, h]], 2: [[h, 0, 0], [0, c, -s], [0, s, c]], 3: [[c, 0, s], [0, h, 0], [-s, 0, c]]}[ax]
         D = {'M': M, 'H': h, 't': [rnd.choice((2, -1, 1)), rnd.choice((-2, 2, 1)), rnd.choice((1, -1, 2))], 'tden': 8}
         out.append({'m': 'align', 'op': 'mesh', 'vpos': BOXV, 'faces': BOXF, 'samples': BOXS, 'off': rnd.choice([[0, 0, 0], [150, -90, 60]]), 'D': D,
-                    'mode': 'plane', 'guess': 0, 'swap': rnd.randint(1, 4), 'basin': True})
+                    'mode': 'plane', 'guess': 0, 'swap': rnd.randint(1, 4), 'basin': _basin3(D, BOXS)})
+    # 3D: the same box a thousand times smaller or larger (point and plane mode, no pre-rotation): the result may not depend on the unit
+    for _ in range(12 if tier == 'quick' else 200):
+        c, s, h = rnd.choice([(399, 40, 401), (899, -60, 901), (1, 0, 1)])
+        ax = rnd.randint(1, 3)
+        M = {1: [[c, -s, 0], [s, c, 0], [0, 0, h]], 2: [[h, 0, 0], [0, c, -s], [0, s, c]], 3: [[c, 0, s], [0, h, 0], [-s, 0, c]]}[ax]
+        D = {'M': M, 'H': h, 't': [rnd.choice((2, -1, 1)), rnd.choice((-2, 2, 1)), rnd.choice((1, -1, 2))], 'tden': 8}
+        out.append({'m': 'align', 'op': 'mesh', 'vpos': BOXV, 'faces': BOXF, 'samples': BOXS, 'off': [0, 0, 0], 'D': D,
+                    'mode': rnd.choice(('plane', 'point')), 'guess': 0, 'swap': 0, 'basin': _basin3(D, BOXS), 'msc': rnd.choice((-10, -10, 10))})
     return out
